@@ -64,6 +64,15 @@ func runOne(run int, sysName string, n int, seed int64, maxSteps int, policy str
 			Bias: map[string]float64{"leaderTimeout": pT, "timeout": pC, "fd[": pF, "netLen[": 0.9},
 			Pick: map[string]int{"leaderTimeout": 0, "timeout": 0, "fd[": 1, "netLen[": -1}}
 		crashW = []float64{0.0, 0.02, 0.1}[r.Intn(3)]
+		if len(s.CrashChoices) > 0 {
+			// crashes written as either-branches of the archetypes themselves (mayFail): rare, rate varies per run
+			pX := []float64{0.0, 0.01, 0.03, 0.1, 0.25}[r.Intn(5)]
+			o := s.Oracle.(*mpexec.BiasOracle)
+			for _, id := range s.CrashChoices {
+				o.Bias[id], o.Pick[id] = pX, -1
+			}
+			crashW = pX
+		}
 		policy = fmt.Sprintf("biased pT=%v pC=%v pF=%v crash=%v", pT, pC, pF, crashW)
 	}
 	emit(line{E: "case", Run: run, Sys: sysName, Policy: policy, Seed: seed})
